@@ -45,7 +45,8 @@ def load_known():
     return json.load(open(p))
 
 
-def match_known(known, prop, cid, kind, label):
+def match_known(known, prop, cid, kind, label, inp=None):
+    import re as _re
     for k in known:
         if k.get('status') != 'known' or k.get('property') != prop:
             continue
@@ -54,6 +55,8 @@ def match_known(known, prop, cid, kind, label):
         if k.get('kind') and k['kind'] != kind:
             continue
         if k.get('label_contains') and k['label_contains'] not in label:
+            continue
+        if k.get('input_regex') and (inp is None or not _re.search(k['input_regex'], inp)):
             continue
         return k
     return None
@@ -331,18 +334,27 @@ def run_check(prop, tier, seed):
         n_obl += 1
         undecided.append('%s: %s (%s)' % (it.id, it.result, it.reason[:160]))
     for b in bounded:
+        reported = set()
+        n_known = 0
         for v in b.get('violations', []):
-            k = match_known(known, prop, b.get('contract', ''), 'bounded', v.get('label', ''))
+            k = match_known(known, prop, b.get('contract', ''), 'bounded', v.get('label', ''), str(v.get('input', '')))
             if k is not None:
+                n_known += 1
                 line = 'KNOWN-FINDING: property=%s %s' % (prop, k['what'])
                 if line not in known_lines:
                     known_lines.append(line)
                 continue
-            it = Item('%s/bounded:%s' % (prop, b['name']), b.get('contract', ''), 'bounded', v.get('label', ''))
+            if v.get('label', '') in reported:
+                continue            # one VIOLATION line per failure class; all cases are in the evidence
+            reported.add(v.get('label', ''))
+            it = Item('%s/bounded:%s:%d' % (prop, b['name'], len(reported)), b.get('contract', ''), 'bounded',
+                      v.get('label', ''))
             it.result = 'sat'
             it.backend = 'cpython'
             it.concrete = v
             violations.append(it)
+        b['violations_matching_known_findings'] = n_known
+        b['violations'] = b.get('violations', [])[:12]
     # replay counter-models
     os.makedirs(os.path.join(HERE, 'replays'), exist_ok=True)
     vio_lines = []
